@@ -321,7 +321,7 @@ def t_groups(tier):
 
 def t_pair_group(sizes, mask, fillpos, ss, D, nalt):
     """Thorough tier: which groups get all PAIRS of deviations (documented bound)."""
-    return D * nalt <= 48
+    return D * nalt <= 32
 
 
 def t_cases(tier):
@@ -341,7 +341,7 @@ def t_cases(tier):
         out.append(["T", sizes, mask, fillpos, ss, [], 1])
         for d in draws:
             for alt in alts[d % B][1:]:
-                fr = 1 if (tier == "thorough" or d == draws[0]) else 0
+                fr = 1 if ((tier == "thorough" and max(sizes) <= 3) or d == draws[0]) else 0
                 out.append(["T", sizes, mask, fillpos, ss, [[d] + alt], fr])
         if tier == "thorough":
             nalt = max(len(a) for a in alts) - 1
@@ -722,7 +722,7 @@ def d_namespace(seed):
     if seed in _D_NS:
         return _D_NS[seed]
     ns = {}
-    exec(SNIPPET_HEADER, ns)
+    exec(SNIPPET_HEADER.replace('sys.path.insert(0, "/repo")\n', ""), ns)  # funsor is already imported (FV_REPO)
     A = d_arrays(seed)
     ns.update(A)
     exec(D_PREAMBLE, ns)
@@ -2026,9 +2026,9 @@ def bounds(tier):
             "draw_alternatives": "midpoint of every non-empty CDF interval, every interior boundary, 0.0, nextafter(1,0)",
             "deviation_bound": 1 if quick else 2,
             "deviating_draws": "every (particle, batch row) for the generic fill; the rows holding the -inf cell otherwise",
-            "pair_bound": None if quick else "groups with (#deviating draws) * (#alternatives - 1) <= 48",
+            "pair_bound": None if quick else "groups with (#deviating draws) * (#alternatives - 1) <= 32",
             "funsor_level_reduce": "0-deviation execution and every deviation of the first deviating draw"
-            if quick else "every 0- and 1-deviation execution",
+            + ("" if quick else "; every 0- and 1-deviation execution of signatures with sizes <= 3"),
         },
         "gaussian_sampling": {
             "real_input_shapes": [[[]], [[2]], [[], []], [[], [2]], [[2], []], [[2], [2]]],
@@ -2075,6 +2075,17 @@ def check(case, seed):
             if _D_REBOUND[0] != before:
                 out.setdefault("counters", {})["undeclared_log_density_inputs_rebound"] = _D_REBOUND[0] - before
             return out
+
+
+def finalize(report, tier, seed):
+    fam = {}
+    for k, n in report.outcomes.items():
+        head = k.split(":")[0]
+        if head in ("D", "T", "TP", "G", "M"):
+            fam[head] = fam.get(head, 0) + n
+    return {"ok_cases_by_family": fam, "family_legend": {
+        "D": "Delta semantics", "T": "Tensor._sample single executions", "TP": "Tensor._sample pairs of deviations "
+        "(one case = all alternative pairs of two draws)", "G": "Gaussian._sample groups", "M": "mixture / MonteCarlo"}}
 
 
 def _listify(x):
